@@ -457,7 +457,7 @@ def excluded_by(case, known):
     m = fsops.model_after_init(case["init"])
     for burst in case["bursts"]:
         arrived = set()  # destinations of renames / move_ins of this burst (FSEvents chain)
-        named = set()  # names used by earlier ops of this burst (Windows name re-use)
+        named = {}  # names used by earlier ops of this burst -> kinds they had (name re-use)
         for op in burst:
             k = op[0]
             if k in ("sleep",):
@@ -479,11 +479,18 @@ def excluded_by(case, known):
                     arrived.add(op[2])
             if ("KF-C20-windows-name-reuse-in-batch" in known and case["emitter"] == "windows") or ("KF-C20-fsevents-name-reuse-in-batch" in known and case["emitter"] == "fsevents"):
                 creates = [op[1]] if k in ("create", "mkdir", "makedirs") else ([op[2]] if k in ("rename", "move_in") else [])
-                if any(p in named for p in creates):
-                    return "KF-C20-windows-name-reuse-in-batch" if case["emitter"] == "windows" else "KF-C20-fsevents-name-reuse-in-batch"
-                named.update(x for x in op[1:3] if isinstance(x, str) and k != "move_in")
-                if k == "move_in":
-                    named.add(op[2])
+                new_kind = "f" if k == "create" else ("d" if k in ("mkdir", "makedirs") else (m.kind(op[1]) if k == "rename" else (m.out[op[1]][""][0] if k == "move_in" else None)))
+                for p in creates:
+                    if p in named:
+                        if case["emitter"] == "fsevents":
+                            return "KF-C20-fsevents-name-reuse-in-batch"
+                        # Windows: the finding needs a directory on one side (flavour and synthetic sub-events come from
+                        # os.path.isdir() at processing time); files re-using files' names are translated correctly
+                        if new_kind == "d" or "d" in named[p]:
+                            return "KF-C20-windows-name-reuse-in-batch"
+                for x in ([op[2]] if k == "move_in" else [x for x in op[1:3] if isinstance(x, str)]):
+                    kind_x = new_kind if x in creates else m.kind(x)
+                    named.setdefault(x, set()).add(kind_x)
             fsops.apply_op(m, tuple(op))
     return None
 
